@@ -102,6 +102,9 @@ func checkConflictRemoval(c *Ctx, rule string) {
 	if rc == nil || rds == nil {
 		return
 	}
+	// conflicts are found through the unconfirmed-spender index only: every input of every unconfirmed transaction must be in it
+	checkPerIteration(c, rule, wtxFn(c, rule, "insertMemPoolTx"), "TxIn", "putRawUnminedInput", 1,
+		"an input of a newly seen unconfirmed transaction is not registered in the unconfirmed-spender index: when a conflicting transaction confirms, this one (and its descendants) survive and keep counting")
 	// self recursion
 	self := false
 	for _, cs := range p.callers(rc) {
